@@ -3,6 +3,8 @@ import json
 
 from props import sched
 
+sched.cov_register(__name__.split('.')[-1])      # dev-only: VERIF_COVERAGE=1
+
 ID = 'C10'
 COQ_MODEL = 'model.TsProps'
 COQ_CORR = 'corr_C10'
